@@ -65,5 +65,12 @@ func IngressPods(ctx context.Context, srcbase ingress.Controller, svcbase servic
 		svcs.Close()
 		return nil, err
 	}
+
+	// the intermediate join belongs to the result: stop it when the result is done
+	go func() {
+		<-pods.Done()
+		svcs.Close()
+	}()
+
 	return pods, nil
 }
